@@ -72,6 +72,7 @@ class Halves:
         self.r = {CLIENT_SID: True, SERVER_SID: True}
         self.w = {CLIENT_SID: True, SERVER_SID: True}
         self.split = {CLIENT_SID: False, SERVER_SID: False}
+        self.gone = {CLIENT_SID: False, SERVER_SID: False}     # removed from the harness table by "drop"
 
 
 def side_of(sid):
@@ -112,8 +113,11 @@ def cmd_events(cmd, hv):
         return [(None, "none" if ok else "invalid")]
     if name == "drop":
         evs = []
-        if not (hv.r[sid] or hv.w[sid]):
+        if hv.gone[sid]:
             return [(None, "invalid")]
+        hv.gone[sid] = True
+        if not (hv.r[sid] or hv.w[sid]):
+            return [(None, "none")]
         if hv.r[sid]:
             evs.append(("DropR %s" % x, "skip"))
         if hv.w[sid]:
